@@ -332,6 +332,9 @@ func (g *Gen) resolveDesignator(d string, pkg *types.Package) []string {
 		return out
 	case d == "bytes":
 		return []string{"E.uint8"}
+	case d == "ghost.backend_call":
+		// the record of the last call through the Backend interface (declared in package backend)
+		return []string{"ghost.be_op", "ghost.be_req", "ghost.be_resp", "ghost.be_err"}
 	case d == "ghost.iteration":
 		// the ghost view of the live iterator (declared in package storage)
 		return []string{"ghost.rec_n", "ghost.rec_key", "ghost.rec_val", "ghost.rec_uk", "ghost.rec_rev", "ghost.it_pos", "ghost.it_lo", "ghost.it_hi"}
@@ -456,7 +459,10 @@ func (g *Gen) applyContract(v ssa.Value, ct *Contract, key string, c *ssa.CallCo
 		g.stHavoc(st, n, so)
 		g.recordWrite(n, nil)
 	}
-	g.havocScratch(st, g.modSet(ct, cpkg))
+	if !ct.GhostOnly {
+		// (a ghost-only contract rides on a built-in model, which is not a call that could disturb scratch ghosts)
+		g.havocScratch(st, g.modSet(ct, cpkg))
+	}
 	// results
 	ts := g.havocResults(v, c, st)
 	res := sig.Results()
